@@ -69,6 +69,12 @@ def replay(case):
         x0 = (1.0 / float(np.sum(vec(x0).real))) * x0
     variants = [(None, None)] if sch in ('explicit_euler', 'hod') else [(s, m) for s in ('als', 'mals') for m in ('solve', 'lu')]
     snaps = snapshot([A, x0, guess, prev])
+    # the caller builds an identity of the same dimensions for its own purposes and overwrites its cores in place before the
+    # integrators run (the schemes build their own identities: whatever they get must be the identity)
+    import scikit_tt.tensor_train as tt_mod
+    mine = tt_mod.eye(dims)
+    for c_ in mine.cores:
+        c_ *= 3.0
     for normalize in norms:
         for solver, micro in variants:
             if solver == 'mals' and len(dims) < 2:
